@@ -14,16 +14,19 @@ func init() {
 	register(&Property{
 		ID:        "C32",
 		Title:     "Flow aggregation conserves counts and emits each window once",
-		Technique: "static analysis: who-may-call/write, post-dominance pairing, cut-set guards, provenance of the emitted collection (go/ssa over goldmane/pkg/storage)",
+		Technique: "static analysis: who-may-call/write, post-dominance pairing, cut-set guards, provenance of the emitted collection, must-do path cuts through package callees, twin comparison of switch arms with classes derived from the counter struct (go/ssa over goldmane/pkg/storage)",
 		DesignRef: "DESIGN.md §3 C32",
 		Explanation: "Decides on goldmane's BucketRing: (once) Sink.Receive is called only by EmitFlowCollections, for collections produced by maybeBuildFlowCollection, and is always followed by Complete() on the " +
 			"same collection; maybeBuildFlowCollection returns a collection only where buckets[startIndex].pushed is false; pushed is set only by FlowCollection.Complete (for every bucket recorded in the " +
 			"collection) and cleared only by AggregationBucket.Reset; every bucket whose flows are gathered into a collection is recorded in it; (count) BucketRing.AddFlow adds an accepted flow to exactly " +
 			"one AggregationBucket, the one findBucket returned for flow.StartTime, on every non-rejecting path, and files it in the DiachronicFlow under that same bucket's window; findBucket returns a bucket " +
 			"only under StartTime <= t < EndTime of that bucket; Reset replaces the per-bucket statistics and clears the pushed flag; " +
-			"(expiry) the limit handed to DiachronicFlow.Rollover is read from the BucketRing (accessor call or field load, possibly through a captured variable) and no instruction that can run after that read in the rolling function - directly or through package callees - writes a BucketRing field the read depends on (the head index): the DiachronicFlows are pruned against the ring as it is after the recycle.",
+			"(expiry) the limit handed to DiachronicFlow.Rollover is read from the BucketRing (accessor call or field load, possibly through a captured variable) and no instruction that can run after that read in the rolling function - directly or through package callees - writes a BucketRing field the read depends on (the head index): the DiachronicFlows are pruned against the ring as it is after the recycle; " +
+			"(conserve) the bookkeeping of an accepted flow is all-or-none: every accepting path of BucketRing.AddFlow calls DiachronicFlow.AddFlow, and the result-less callees have no normally-returning path (log.Fatal/Panic blocks excluded, package helpers looked through) that skips their store - AggregationBucket.AddFlow always inserts into its Flows set and calls statisticsIndex.AddFlow on its stats, statisticsIndex.AddFlow always adds to the index-wide statistics, DiachronicFlow.AddFlow always writes Windows; " +
+			"(twin) with the classes and directions derived from the fields of the counter struct held by `statistics` (Allowed/Denied/Passed x In/Out), every region controlled by a test of a proto.Action value against a constant writes counters of one class only (the one sharing its stem with the constant where that is unambiguous), different arms write different classes and together all of them, the arms write the same (kind, direction, source) cells under non-contradictory tests of the same expression, and every store into a proto.StatisticsResult series is computed from the counter / series of the same name only, each counter reaching its series.",
 		NotDecided: "The arithmetic itself: that List/Statistics sums equal the sums of accepted flows (DiachronicFlow window arithmetic, statisticsIndex), ring index arithmetic (indexSubtract/iterBuckets ranges), " +
-			"and the treatment of flows that arrive for a window after it was emitted (AggregationBucket.AddFlow accepts them with a warning; they are counted in queries but never emitted).",
+			"and the treatment of flows that arrive for a window after it was emitted (AggregationBucket.AddFlow accepts them with a warning; they are counted in queries but never emitted). " +
+			"Not decided either: that the key indices (BucketRing.indices) receive every new DiachronicFlow; whether the In/Out direction of a cell is the right one when all action arms agree on it (only disagreement between arms is reported); the per-policy / per-rule bookkeeping of statisticsIndex.AddFlow beyond the index-wide add.",
 		Assumptions: []string{
 			"go/types + go/ssa (x/tools v0.50.0) model of the current source, CGO_ENABLED=0 build",
 			"logrus Panic*/Fatal* do not return",
@@ -54,6 +57,26 @@ func init() {
 				Old: "AddFlow(flow, bucket.StartTime, bucket.EndTime)", New: "AddFlow(flow, flow.StartTime, flow.EndTime)", Expect: "C32.count/same-window"},
 			{Name: "findBucket ignores the bucket's end", File: "goldmane/pkg/storage/bucket_ring.go",
 				Old: "\tif t >= b.StartTime && t < b.EndTime {\n\t\treturn idx, b\n\t}", New: "\tif t >= b.StartTime {\n\t\treturn idx, b\n\t}", Expect: "C32.count/in-window"},
+			{Name: "published bucket declines a flow the ring has already accepted (seed C32-3)", File: "goldmane/pkg/storage/bucket.go",
+				Old: "Warn(\"Adding flow to already published bucket\")\n", New: "Warn(\"Adding flow to already published bucket\")\n\t\treturn\n", Expect: "C32.conserve/AggregationBucket.AddFlow/Flows"},
+			{Name: "bucket membership recorded but statistics skipped for a published bucket", File: "goldmane/pkg/storage/bucket.go",
+				Old: "\t// Track policy stats.\n\tb.stats.AddFlow(flow)\n", New: "\t// Track policy stats.\n\tif b.pushed {\n\t\treturn\n\t}\n\tb.stats.AddFlow(flow)\n", Expect: "C32.conserve/AggregationBucket.AddFlow/stats"},
+			{Name: "late flow put into the bucket but not into the DiachronicFlow window", File: "goldmane/pkg/storage/bucket_ring.go",
+				Old: "\tr.diachronics[*flow.Key].AddFlow(flow, bucket.StartTime, bucket.EndTime)\n", New: "\tif !bucket.pushed {\n\t\tr.diachronics[*flow.Key].AddFlow(flow, bucket.StartTime, bucket.EndTime)\n\t}\n", Expect: "C32.conserve/BucketRing.AddFlow/window"},
+			{Name: "DiachronicFlow drops a flow for a window newer than all it has", File: "goldmane/pkg/storage/diachronic_flow.go",
+				Old: "\t\t// This flow is for a new window that is after all existing windows.\n\t\td.appendWindow(flow, start, end)\n", New: "\t\t// This flow is for a new window that is after all existing windows.\n", Expect: "C32.conserve/DiachronicFlow.AddFlow/Windows"},
+			{Name: "index-wide statistics skipped for flows without live connections", File: "goldmane/pkg/storage/stats.go",
+				Old: "\ts.add(flow, flow.Key.Action())\n", New: "\tif flow.NumConnectionsLive == 0 {\n\t\treturn\n\t}\n\ts.add(flow, flow.Key.Action())\n", Expect: "C32.conserve/statisticsIndex.AddFlow/total"},
+			{Name: "Pass arm increments a Denied counter (seed C32-4)", File: "goldmane/pkg/storage/stats.go",
+				Old: "s.connections.PassedOut += flow.NumConnectionsLive", New: "s.connections.DeniedOut += flow.NumConnectionsLive", Expect: "C32.twin/statistics.add/Action_Pass/class"},
+			{Name: "Deny arm adds packets to the byte counter", File: "goldmane/pkg/storage/stats.go",
+				Old: "s.bytes.DeniedIn += flow.BytesIn", New: "s.bytes.DeniedIn += flow.PacketsIn", Expect: "C32.twin/statistics.add/Action_Deny/shape"},
+			{Name: "Allow arm swaps the reporter direction of live connections", File: "goldmane/pkg/storage/stats.go",
+				Old: "\t\tcase \"ingress\":\n\t\t\ts.connections.AllowedIn += flow.NumConnectionsLive\n\t\tcase \"egress\":\n\t\t\ts.connections.AllowedOut += flow.NumConnectionsLive", New: "\t\tcase \"egress\":\n\t\t\ts.connections.AllowedIn += flow.NumConnectionsLive\n\t\tcase \"ingress\":\n\t\t\ts.connections.AllowedOut += flow.NumConnectionsLive", Expect: "C32.twin/statistics.add/Action_Allow/shape"},
+			{Name: "aggregated DeniedOut series summed from the DeniedIn counter", File: "goldmane/pkg/storage/bucket_ring.go",
+				Old: "results[k].DeniedOut[0] += v.DeniedOut", New: "results[k].DeniedOut[0] += v.DeniedIn", Expect: "C32.twin/copy/DeniedOut"},
+			{Name: "time series PassedIn appended to the AllowedIn series", File: "goldmane/pkg/storage/bucket_ring.go",
+				Old: "results[k].PassedIn = append(results[k].PassedIn, v.PassedIn)", New: "results[k].PassedIn = append(results[k].AllowedIn, v.PassedIn)", Expect: "C32.twin/copy/PassedIn"},
 			{Name: "reset keeps old statistics", File: "goldmane/pkg/storage/bucket.go",
 				Old: "\tb.ready = false\n\tb.stats = newStatisticsIndex()\n", New: "\tb.ready = false\n", Expect: "C32.count/reset/stats"},
 		},
@@ -386,6 +409,9 @@ func runC32(c *Ctx) {
 	c.Rule("C32.once", "E-OWN/E-PAIR/E-GUARD/E-FLOW", "Sink.Receive only from EmitFlowCollections, for built collections, always completed; no collection for a pushed window; pushed set by Complete for all recorded buckets, cleared by Reset only", 8)
 	c.Rule("C32.count", "E-PAIR/E-GUARD/E-FLOW", "an accepted flow goes into exactly the bucket findBucket chose and the same window of its DiachronicFlow; findBucket's bucket contains t; Reset renews statistics", 7)
 
+	c.Rule("C32.conserve", "E-PAIR (must-do on every path, through package callees)", "once BucketRing.AddFlow has found a bucket, every path files the flow in its DiachronicFlow window AND the bucket's Flows set AND the bucket's statistics: the result-less callees (AggregationBucket.AddFlow, statisticsIndex.AddFlow, DiachronicFlow.AddFlow) have no normally-returning path that skips their store", 5)
+	c.Rule("C32.twin", "E-TWIN across switch arms (classes derived from the counts struct)", "per-action fan-out of counters: each action arm writes counters of its own class only, arms write distinct classes covering all, and the arms are equal modulo the class (same kind/direction/source cells under non-contradictory tests); each counter is copied into the StatisticsResult series of the same name only", 14)
+	c32Twin(c, p)
 	c.Rule("C32.expiry", "E-ORDER/E-EFFECT", "the limit handed to DiachronicFlow.Rollover is read from the ring and no later instruction of the rolling function (or a callee) writes a field that read depends on: windows are pruned against the ring as it is after the recycle", 1)
 	c32Expiry(c, p)
 
@@ -563,6 +589,7 @@ func runC32(c *Ctx) {
 			c.Violate("C32.count/same-window", p.Pos(add.Pos()), "BucketRing.AddFlow no longer files the flow in its DiachronicFlow")
 		}
 	}
+	c32Conserve(c, p, bucket)
 	// findBucket
 	fb := c23Func(c, p, c32Pkg, "BucketRing.findBucket")
 	t := fb.Params[1]
